@@ -280,6 +280,21 @@ class Model:
             return ()
         if k == "Return":
             raise Ret(self.ev(n["value"], env) if n.get("value") else ())
+        if k == "Closure":
+            return ("closure", n.get("def"))  # a value that is only ever called (calls of local closures are inlined by the normalisation)
+        if k == "Try":
+            v = self.ev(n["arg"], env)
+            if v is None:
+                raise Ret(None)
+            if isinstance(v, tuple) and v and v[0] in ("some", "ok"):
+                return v[1]
+            if isinstance(v, tuple) and v and v[0] == "err":
+                raise Ret(v)
+            if isinstance(v, tuple) and len(v) == 4 and v[0] == "ctor" and v[1] == "Result":
+                if v[2] == "Ok":
+                    return v[3][0] if v[3] else ()
+                raise Ret(v)
+            raise Unrecognised("`?` on %r" % (v,))
         if k == "Break":
             raise Brk()
         if k == "Continue":
@@ -343,6 +358,12 @@ class Model:
                 a, b = _lst(self.ev(n["args"][0], env)), _lst(self.ev(n["args"][1], env))
                 if a is not None and b is not None:
                     return ("list", a + b) if fn.endswith("chain") else ("list", [(x, y) for x, y in zip(a, b)])
+            if fn.endswith(("::windows", "::chunks")) and len(n["args"]) == 2:
+                a, c = _lst(self.ev(n["args"][0], env)), self.ev(n["args"][1], env)
+                if a is not None and isinstance(c, int) and c > 0:
+                    if fn.endswith("windows"):
+                        return ("list", [("list", a[i:i + c]) for i in range(0, max(0, len(a) - c + 1))])
+                    return ("list", [("list", a[i:i + c]) for i in range(0, len(a), c)])
             if fn.endswith("Iterator::rev") and len(n["args"]) == 1:
                 a = _lst(self.ev(n["args"][0], env))
                 if a is not None:
